@@ -102,6 +102,7 @@ func checkC01(c *Ctx) {
 	// Rollback and Hash are defined by lastSaved: it must follow every successful commit / load
 	checkLastSaved(c)
 	checkMergeOrder(c)
+	checkIndexIterGuard(c)
 
 	checkTreeRules(c, l, map[string]bool{"insert": true, "remove": true, "lookup": true})
 
